@@ -29,7 +29,15 @@ def placements(tier):
             if mask >> n & 1:
                 lines.append("end_lbl .break" if n % 2 else ".break")
             lines.insert(0, "")
-            out.append("\n".join(lines) + "\nhalt\n" if not (mask >> n & 1) else "\n".join(lines[:-1] + ["halt"] + lines[-1:]) + "\n")
+            src = "\n".join(lines) + "\nhalt\n" if not (mask >> n & 1) else "\n".join(lines[:-1] + ["halt"] + lines[-1:]) + "\n"
+            out.append(src)
+            # the same placement at another origin, and with one more .break written BEFORE the .orig line
+            # (it marks the first word of the program, wherever the program is loaded)
+            if n <= (2 if tier == "quick" else 4):
+                for o in ("x4000", "x0200", "xFDF0", "x3000"):
+                    out.append(".orig " + o + src)
+                    out.append(".break\n.orig " + o + src)
+                    out.append("first .break\n.break\n.orig " + o + src)
     return out
 
 
